@@ -1034,4 +1034,258 @@ theorem C02_declarations_independent (mros : List (List Body)) (i : Nat) (h : i 
     (mros.map compile)[i]'(by simpa using h) = compile (mros[i]) := by
   simp
 
+/-! ### review round: constraint lists that contain `decimal_places`; `normalise`; what "rejected" means; precision -/
+
+theorem validate_append (P : Prims) (a b : List (String × PyVal)) (v : PyVal) :
+    validate P (a ++ b) v = (validate P a v >>= validate P b) := by
+  induction a generalizing v with
+  | nil => simp [validate, bind, Except.bind, pure, Except.pure]
+  | cons c a ih =>
+    obtain ⟨n, bd⟩ := c
+    simp only [List.cons_append, validate]
+    cases validatorOf n with
+    | none => simp [bind, Except.bind, throw, throwThe, MonadExceptOf.throw]
+    | some f =>
+      simp only [bind, Except.bind]
+      cases f P v bd with
+      | error e => rfl
+      | ok w => simpa [bind, Except.bind] using ih w
+
+/-- **a constraint list with `decimal_places` in it** (the one strict validator of a numeric type that is not
+input-preserving): the constraints before it look at the input, `decimal_places` accepts iff the value has at most `d`
+fraction digits and completes a Decimal to exactly `d` places, and the constraints after it (in table order: `multiple_of`,
+`max_digits`) look at the **completed** value `w`, which is also the result — the documented padding (rule.md) -/
+theorem C02_validate_decimal_places_chain (P : Prims) (pre post : List (String × PyVal)) (d v r : PyVal)
+    (hpre : ∀ c ∈ pre, c.1 ∈ strictPreservingNames) (hpost : ∀ c ∈ post, c.1 ∈ strictPreservingNames) :
+    validate P (pre ++ ("decimal_places", d) :: post) v = .ok r ↔
+      (∀ c ∈ pre, ∃ f, validatorOf c.1 = some f ∧ f P v c.2 = .ok v) ∧
+      ∃ w, Constraints.decimal_places P v d = .ok w ∧
+        (∀ c ∈ post, ∃ f, validatorOf c.1 = some f ∧ f P w c.2 = .ok w) ∧ r = w := by
+  rw [validate_append]
+  cases h1 : validate P pre v with
+  | error e =>
+    simp only [bind, Except.bind]
+    constructor
+    · intro h; cases h
+    · rintro ⟨hall, _⟩
+      have := (C02_validate_iff_names P pre v v hpre).mpr ⟨hall, rfl⟩
+      rw [h1] at this; cases this
+  | ok v1 =>
+    obtain ⟨hall, rfl⟩ := (C02_validate_iff_names P pre v v1 hpre).mp h1
+    simp only [bind, Except.bind, validate, validatorOf]
+    cases h2 : Constraints.decimal_places P v1 d with
+    | error e =>
+      constructor
+      · intro h; cases h
+      · rintro ⟨_, w, hw, _⟩; cases hw
+    | ok w =>
+      simp only [C02_validate_iff_names P post w r hpost]
+      constructor
+      · rintro ⟨hp, rfl⟩; exact ⟨hall, r, rfl, hp, rfl⟩
+      · rintro ⟨_, w', hw', hp, rfl⟩
+        injection hw' with hw'
+        subst hw'
+        exact ⟨hp, rfl⟩
+
+/-- the documented example: `Decimal('1.3')` with `decimal_places = 2, max_digits = 2` is completed to `1.30` (3 digits)
+and rejected by `max_digits`; with `max_digits = 3` it is accepted as `1.30` -/
+theorem C02_decimal_places_then_max_digits_example (P : Prims) :
+    validate P [("decimal_places", .int 2), ("max_digits", .int 2)] (.dec (.fin false 13 (-1))) = .error .valueError ∧
+    validate P [("decimal_places", .int 2), ("max_digits", .int 3)] (.dec (.fin false 13 (-1))) = .ok (.dec (.fin false 130 (-2))) := by
+  constructor <;> rfl
+
+/-- **known finding `decimal-places-precision`**: completing a Decimal to `d` places goes through `round(value, d)` =
+`quantize`, which raises `InvalidOperation` when the completed coefficient needs more digits than the context precision (28):
+a valid value (fraction digits ≤ d) is then rejected -/
+def KnownDefect.decimalPlacesPrecision (c : Nat) (e d : Int) : Bool :=
+  decide (e ≥ -d) && decide (numDigits (c * 10 ^ (e + d).toNat) > decPrec)
+
+theorem C02_decimal_places_precision_witness (P : Prims) :
+    KnownDefect.decimalPlacesPrecision (10 ^ 27) 0 2 = true ∧
+    specDecimals (10 ^ 27) 0 ≤ 2 ∧
+    Constraints.decimal_places P (.dec (.fin false (10 ^ 27) 0)) (.int 2) = .error .invalidOperation := by
+  refine ⟨by decide, by decide, ?_⟩
+  rfl
+
+/-- outside that region `decimal_places` is exact on finite Decimals: accepted iff the fraction digits fit, and the result is the
+input with zeros appended (same number) -/
+theorem C02_decimal_places_exact_partial (P : Prims) (s : Bool) (c : Nat) (e d : Int) (r : PyVal)
+    (hk : KnownDefect.decimalPlacesPrecision c e d = false) :
+    Constraints.decimal_places P (.dec (.fin s c e)) (.int d) = .ok r ↔
+      specDecimals c e ≤ d ∧ r = .dec (.fin s (c * 10 ^ (e + d).toNat) (-d)) := by
+  rw [C02_decimal_places_decimal]
+  constructor
+  · rintro ⟨h1, h2⟩
+    have he : e ≥ -d := by
+      have hd := (C02_parse_decimal_spec c e).2
+      unfold codeDecimals at hd
+      by_cases h0 : e ≥ 0
+      · simp [h0] at hd; omega
+      · simp [h0] at hd; omega
+    have hp : numDigits (c * 10 ^ (e + d).toNat) ≤ decPrec := by
+      simp [KnownDefect.decimalPlacesPrecision, he] at hk; omega
+    rw [C02_decimal_places_pads s c e d h1 hp] at h2
+    injection h2 with h2
+    exact ⟨h1, h2.symm⟩
+  · rintro ⟨h1, rfl⟩
+    have he : e ≥ -d := by
+      have hd := (C02_parse_decimal_spec c e).2
+      unfold codeDecimals at hd
+      by_cases h0 : e ≥ 0
+      · simp [h0] at hd; omega
+      · simp [h0] at hd; omega
+    have hp : numDigits (c * 10 ^ (e + d).toNat) ≤ decPrec := by
+      simp [KnownDefect.decimalPlacesPrecision, he] at hk; omega
+    exact ⟨h1, C02_decimal_places_pads s c e d h1 hp⟩
+
+example : KnownDefect.decimalPlacesPrecision 13 (-1) 2 = false := by decide
+
+/-- the completed value is the same number: `c·10^e = (c·10^(e+d))·10^(-d)` (so the result of `decimal_places` is `==` its input) -/
+theorem C02_decimal_places_same_number (s : Bool) (c : Nat) (e d : Int) (he : e ≥ -d) :
+    Q.eq (decQ s c e) (decQ s (c * 10 ^ (e + d).toNat) (-d)) = true := by
+  rw [C02_eq_exact _ _ 0 (-d) (by simp [decQ]) (by simp [decQ]) (by simpa [decQ] using he) (by simp [decQ])]
+  simp only [decide_eq_true_eq, Utv.Py.Q.over, decQ, Int.sub_self, Int.toNat_zero, Int.pow_zero, Int.mul_one]
+  have : (e - -d).toNat = (e + d).toNat := by congr 1; omega
+  rw [this]
+  cases s <;> simp [Int.natCast_mul, Int.natCast_pow, Int.neg_mul]
+
+/-! #### `normalise`: which collected constraints become validators (`validate_constraints`, rule.py:773-837) -/
+
+/-- `const` stands alone -/
+theorem C02_normalise_const (cs : List (String × PyVal)) (c : String × PyVal)
+    (h : cs.find? (fun c => baseKey c.1 == "const") = some c) : normalise cs = [c] := by
+  simp [normalise, h]
+
+/-- without `const`, `enum` stands alone -/
+theorem C02_normalise_enum (cs : List (String × PyVal)) (c : String × PyVal)
+    (h0 : cs.find? (fun c => baseKey c.1 == "const") = none)
+    (h : cs.find? (fun c => baseKey c.1 == "enum") = some c) : normalise cs = [c] := by
+  simp [normalise, h0, h]
+
+def isNoneB (v : PyVal) : Bool := match v with | .none => true | _ => false
+
+/-- the bounds that survive the first two filters of `normalise` -/
+def liveBounds (cs : List (String × PyVal)) : List (String × PyVal) :=
+  (cs.filter fun c => !isNoneB c.2).filter fun c => !(baseKey c.1 == "unique_items" && !Py.truthy c.2)
+
+/-- without `const` and `enum`, a collected constraint becomes a validator iff its bound is not `None`, it is not a false
+`unique_items`, and it is not a `min_length`/`max_length` made redundant by `length` (nor a zero `min_length`) -/
+theorem C02_normalise_mem_iff (cs : List (String × PyVal)) (c : String × PyVal)
+    (h0 : cs.find? (fun c => baseKey c.1 == "const") = none)
+    (h1 : cs.find? (fun c => baseKey c.1 == "enum") = none) :
+    c ∈ normalise cs ↔
+      c ∈ liveBounds cs ∧
+      (if baseKey c.1 == "min_length" then !((liveBounds cs).any fun x => baseKey x.1 == "length") && Py.truthy c.2
+       else if baseKey c.1 == "max_length" then !((liveBounds cs).any fun x => baseKey x.1 == "length") else true) = true := by
+  simp only [normalise, h0, h1, List.mem_filter, liveBounds, isNoneB]
+  constructor <;> intro h <;> exact h
+
+/-- **visible ⇒ enforced**: a constraint visible through the MRO with a real bound, in a declaration without `const`/`enum`
+and other than the `min_length`/`max_length`/`unique_items` special cases, is one of the compiled validators -/
+theorem C02_compile_enforced (mro : List Body) (key : String) (v : PyVal) (lax : Bool)
+    (hk : key ∈ Tables.constraintOrder) (hl : lookup mro key = some (.val v lax))
+    (h0 : (collect mro).find? (fun c => baseKey c.1 == "const") = none)
+    (h1 : (collect mro).find? (fun c => baseKey c.1 == "enum") = none)
+    (hv : isNoneB v = false)
+    (hkey : baseKey (vname key lax) ≠ "unique_items" ∧ baseKey (vname key lax) ≠ "min_length" ∧
+            baseKey (vname key lax) ≠ "max_length") :
+    (vname key lax, v) ∈ compile mro := by
+  unfold compile
+  rw [C02_normalise_mem_iff _ _ h0 h1]
+  have hu : (baseKey (vname key lax) == "unique_items") = false := by simpa using hkey.1
+  have a : (baseKey (vname key lax) == "min_length") = false := by simpa using hkey.2.1
+  have b : (baseKey (vname key lax) == "max_length") = false := by simpa using hkey.2.2
+  refine ⟨?_, by simp [a, b]⟩
+  simp only [liveBounds, List.mem_filter]
+  exact ⟨⟨(C02_collect_iff mro _ v).mpr ⟨key, lax, hk, hl, rfl⟩, by simp [hv]⟩, by simp [hu]⟩
+
+/-- the `length` rule: with `length` declared, `min_length` and `max_length` are not compiled (they are implied or the
+declaration was refused) -/
+theorem C02_normalise_length_example :
+    normalise [("length", .int 2), ("max_length", .int 3), ("min_length", .int 1)] = [("length", .int 2)] := by
+  simp [normalise, baseKey, Py.truthy]
+
+/-- **declaration level**: for a class statement whose compiled validators are input-preserving (any MRO over the twelve
+names), no item types and default hooks, the declared type accepts a value of its origin type exactly when every compiled
+validator accepts it and the contains family read through the MRO holds; result = input -/
+theorem C02_declared_type_iff (P : Prims) (mro : List Body) (acc : PyVal → Bool) (v r : PyVal)
+    (hn : ∀ c ∈ compile mro, c.1 ∈ strictPreservingNames) :
+    parseTyped P (declOf mro none acc pure) v = .ok r ↔
+      (∀ c ∈ compile mro, ∃ f, validatorOf c.1 = some f ∧ f P v c.2 = .ok v) ∧
+      ContainsHolds acc (containsCfg mro) v ∧ r = v := by
+  have h := C02_parse_typed_iff P (declOf mro none acc pure) v r rfl rfl (by simp [declOf])
+    (fun c hc => C02_preserving_of_name (hn c hc))
+  simp only [declOf] at h ⊢
+  rw [h]
+  simp [pure, Except.pure, eq_comm]
+
+/-- non-vacuity of `C02_parse_typed_iff` with item types, validators and contains together: `List[int]`-like declaration
+(items of the item type convert to themselves, a list packs to itself), `max_length = 3`, `contains` positive, `max_contains = 2` -/
+example (P : Prims) :
+    let d : Decl := { validators := [("max_length", .int 3)], args := some pure, cont := ⟨true, none, some 2⟩,
+                      acc := fun x => match x with | .int i => decide (0 < i) | _ => false, post := pure }
+    (∀ f, d.args = some f → f (.seq .list [.int 1, .int (-2)]) = .ok (.seq .list [.int 1, .int (-2)]) ∧
+        d.pack (.seq .list [.int 1, .int (-2)]) = .ok (.seq .list [.int 1, .int (-2)])) ∧
+    (∀ c ∈ d.validators, ∃ f, validatorOf c.1 = some f ∧ Preserving f) ∧
+    parseTyped P d (.seq .list [.int 1, .int (-2)]) = .ok (.seq .list [.int 1, .int (-2)]) ∧
+    parseTyped P d (.seq .list [.int 1, .int 2, .int 3]) = .error .valueError := by
+  refine ⟨?_, ?_, rfl, rfl⟩
+  · intro f hf; simp at hf; subst hf; exact ⟨rfl, rfl⟩
+  · intro c hc; simp at hc; subst hc; exact ⟨_, rfl, preserving_max_length⟩
+
+/-- `max_contains = 0` (the repaired defect): together with `contains` nothing is accepted -/
+theorem C02_contains_max_zero (acc : PyVal → Bool) (k : Cls) (xs : List PyVal) (r : PyVal) :
+    parseContains acc ⟨true, none, some 0⟩ (.seq k xs) ≠ .ok r := by
+  intro h
+  obtain ⟨hc, _⟩ := (C02_contains_iff _ _ _ _).mp h
+  obtain ⟨ys, _, h1, _, h3⟩ := hc rfl
+  have := h3 0 rfl
+  omega
+
+/-! #### "rejected" vs "outside the model": on the exact domains the validators never answer `unmodelled` -/
+
+/-- on numbers (bool, int, finite or infinite float, finite or infinite Decimal — any mix) a range constraint either accepts
+(returning its input) or raises `ValueError`; it is never `unmodelled` and never another exception -/
+theorem C02_range_total_numeric (P : Prims) (v b : PyVal) (hv : Numeric v) (hb : Numeric b) :
+    (Constraints.gt P v b = .ok v ∨ Constraints.gt P v b = .error .valueError) ∧
+    (Constraints.ge P v b = .ok v ∨ Constraints.ge P v b = .error .valueError) ∧
+    (Constraints.lt P v b = .ok v ∨ Constraints.lt P v b = .error .valueError) ∧
+    (Constraints.le P v b = .ok v ∨ Constraints.le P v b = .error .valueError) := by
+  obtain ⟨x, hx, nx⟩ := hv
+  obtain ⟨y, hy, ny⟩ := hb
+  have h1 : Py.lt v b = .ok (NumV.lt x y) := lt_numeric hx hy nx ny
+  have h2 : Py.lt b v = .ok (NumV.lt y x) := lt_numeric hy hx ny nx
+  refine ⟨?_, ?_, ?_, ?_⟩
+  · unfold Constraints.gt
+    simp only [Py.gt, h2]
+    cases NumV.lt y x <;> py_simp
+  · unfold Constraints.ge
+    simp only [Py.ge, Py.le, h2, bind, Except.bind, pure, Except.pure]
+    cases (NumV.lt y x || Py.eq b v) <;> py_simp
+  · unfold Constraints.lt
+    simp only [h1]
+    cases NumV.lt x y <;> py_simp
+  · unfold Constraints.le
+    simp only [Py.le, h1, bind, Except.bind, pure, Except.pure]
+    cases (NumV.lt x y || Py.eq v b) <;> py_simp
+
+/-- the length family on anything that has a length, with an int bound: accepts or `ValueError` -/
+theorem C02_length_total (P : Prims) (v : PyVal) (n : Nat) (m : Int) (h : lenOf v = some n) :
+    (Constraints.max_length P v (.int m) = .ok v ∨ Constraints.max_length P v (.int m) = .error .valueError) ∧
+    (Constraints.min_length P v (.int m) = .ok v ∨ Constraints.min_length P v (.int m) = .error .valueError) ∧
+    (Constraints.length P v (.int m) = .ok v ∨ Constraints.length P v (.int m) = .error .valueError) := by
+  refine ⟨?_, ?_, ?_⟩
+  · unfold Constraints.max_length
+    simp only [hasLen_of_lenOf h, Bool.not_true]
+    py_simp [len_of_lenOf h]
+    by_cases hn : m < (n : Int) <;> simp [hn] <;> omega
+  · unfold Constraints.min_length
+    simp only [hasLen_of_lenOf h, Bool.not_true]
+    py_simp [len_of_lenOf h]
+    by_cases hn : (n : Int) < m <;> simp [hn] <;> omega
+  · unfold Constraints.length
+    simp only [hasLen_of_lenOf h, Bool.not_true]
+    py_simp [len_of_lenOf h, ne_int]
+    by_cases hn : (n : Int) = m <;> simp [hn]
+
 end Utv.C02
